@@ -167,7 +167,9 @@ var c24Kinds = []string{
 }
 
 // c24Programs enumerates main × every subset of exactly k constants × every assignment of kinds.
-func c24Programs(k, nkinds int, visit func(src string)) {
+func c24Programs(k, nkinds int, visit func(src string)) { c24ProgramsM(c24Mains, k, nkinds, visit) }
+
+func c24ProgramsM(mains []string, k, nkinds int, visit func(src string)) {
 	n := len(nearConstants)
 	var subset []int
 	var recSub func(start int)
@@ -178,7 +180,7 @@ func c24Programs(k, nkinds int, visit func(src string)) {
 				idx[i] = string(rune('0' + i))
 			}
 			u.Seqs(idx, k, func(ks []string) {
-				for _, m := range c24Mains {
+				for _, m := range mains {
 					var sb strings.Builder
 					sb.WriteString(m)
 					for j, ci := range subset {
